@@ -108,7 +108,7 @@ impl<'a, P: ?Sized + PathImpl> PathMutImpl<'a, P> {
 			allocate_range(self.buffer, start..self.end, len);
 
 			self.buffer[start] = b'/';
-			self.end += len - start_offset;
+			self.end = self.end + len - start_offset;
 			let segment_offset = start + 1;
 			self.buffer[segment_offset..self.end].copy_from_slice(segment.as_bytes());
 		}
